@@ -89,6 +89,23 @@ CHECKS = {
    design="§4 C17", tech="bounded symbolic execution of the go/ssa form of /repo with a cooperative goroutine scheduler and timer model; SMT (z3) case-splits the symbolic deadlines; schedules enumerated within a delay bound"),
 }
 
+# Round-2 additions (appended to the claimed-level text of each check)
+EXTRA = {
+ "C01": " Round 2 adds an end-to-end session link: a real dialled UDPSession and a real Listener/accepted session over stub sockets (cipher x FEC 2/1 x stream/message x read-buffer size), every fate for the first datagrams in both directions, retransmission driven by the real update(): prefix at every Read, everything intact, backlog drains.",
+ "C02": " Round 2 adds the converse lemma (a sequence number is acknowledged only if the receiver holds or has delivered it) and runs the two-endpoint scenarios (core and session link: backlog drains after the network heals) and the scheduler's one-worker harness (self-rescheduling update) as part of this check.",
+ "C04": " Round 2 adds UDPSession.Write admission (admitted iff fewer than a send window pending, a blocked Write queues nothing), decided sequentially by running the call until it returns or blocks.",
+ "C05": " Round 2 runs the Recv content lemma (delivery queue with peer-controlled fragment numbers, PeekSize/Recv agreement, no panic) as part of this check.",
+ "C07": " Round 2 adds the end-to-end recovery path: an established FEC 2/1 session, one group of two writes (optionally an OOB message in between), every arrival sequence of three drawn from {data0, data1, parity, OOB, nothing} through the real listener/kcpInput/KCP.Input/Read with no retransmission: any two of three deliver both messages byte for byte.",
+ "C08": " Round 2 adds concurrent callers as a havoc/non-interference step: with the other direction's working buffer holding arbitrary bytes, Encrypt still equals textbook CFB, Decrypt still round-trips, and neither writes the other side's buffer (Encrypt and Decrypt hold different mutexes).",
+ "C09": " Round 2 adds one inductive step of the real encoder from a symbolic position in the id space (data/parity ids, types, positions in the d+p cycle, next id modulo the wrap value) and runs the C07 encoder harnesses, the flush content lemma and the OOB nonce harness as part of this check.",
+ "C10": " Round 2 adds: parity is exactly as long as the longest data packet of its own group (two groups, skipped or not), an accepted MTU shrink in the middle of an FEC group (defect found and repaired: parity of the straddling group exceeded the new MTU), and datagram sizes on both sockets of the session link.",
+ "C12": " Round 2 runs the FEC group/skip harnesses at the id wrap and at 2^31 as part of this check (FEC ids wrap without disturbing recovery).",
+ "C15": " Round 2 runs three traffic-heavy harnesses (session recovery through the FEC decoder, decoder fed arbitrary bytes, auto-tune re-tuning) under the ghost pool as part of this check.",
+ "C19": " Round 2 adds OOB interleaved inside an FEC group under loss (session recovery harness): the stream's recovery is unaffected and the OOB message arrives intact.",
+}
+for k, v in EXTRA.items():
+    CHECKS[k]["text"] += v
+
 NOT_APPLICABLE = {}
 
 def main():
